@@ -291,68 +291,110 @@ def check_buckets(run, db, rule='R-BUCKET'):
     return n
 
 
+def _run_key(t, lv):
+    """a parameter or a data member the accumulator is fed from / compared with, as ('param', index) or ('term', canonical)"""
+    t = sym.strip_casts(common.expand_locals(t, lv))
+    if not isinstance(t, dict):
+        return None
+    if t.get('k') == 'param':
+        return ('param', t['i'])
+    if t.get('k') == 'member' and sym.strip_casts(t.get('base') or {}).get('k') == 'this':
+        return ('term', sym.canon(t))
+    return None
+
+
+def _accumulator(f):
+    """(did, acc key, init ok, (op, need key)) of the run accumulator of f - a local that is reset to a node size on a gap (`L = K`),
+    grows by it on a contiguous node (`L += K`, same K), starts at K, and is compared with the requested bytes - or None"""
+    lv = common.single_assignment_locals(f)
+    acc = {}
+    for e in f.events():
+        if e['ev'] == 'assign' and sym.strip_casts(e['lhs']).get('k') == 'local':
+            did = sym.strip_casts(e['lhs'])['did']
+            k = _run_key(e['rhs'], lv)
+            if k is not None:
+                acc.setdefault(did, {}).setdefault(e['op'], set()).add(k)
+        if e['ev'] == 'decl':
+            for v in e['vars']:
+                k = _run_key(v.get('init') or {}, lv) if isinstance(v.get('init'), dict) else None
+                if k is not None:
+                    acc.setdefault(v['did'], {}).setdefault('init', set()).add(k)
+    cand = [(did, ops) for did, ops in acc.items() if '+=' in ops and '=' in ops and ops['+='] == ops['='] and len(ops['+=']) == 1]
+    if len(cand) != 1:
+        return None
+    did, ops = cand[0]
+    k_acc = list(ops['+='])[0]
+    need = None
+    for b in f.blocks.values():
+        t = b.get('term')
+        if t and isinstance(t.get('cond'), dict):
+            c = sym.strip_casts(t['cond'])
+            if c.get('k') == 'bin' and c['op'] in ('>=', '<=', '>', '<'):
+                l, r = sym.strip_casts(c['l']), sym.strip_casts(c['r'])
+                if l.get('did') == did and _run_key(r, lv) is not None:
+                    need = (c['op'], _run_key(r, lv))
+                elif r.get('did') == did and _run_key(l, lv) is not None:
+                    need = ({'>=': '<=', '<=': '>=', '>': '<', '<': '>'}[c['op']], _run_key(l, lv))
+    init_ok = ops.get('init') == {k_acc}
+    if not init_ok:
+        # by value: whatever way it got there (an assignment, a helper, a closure), the accumulator holds one node size when the
+        # search loop is entered
+        from engine import loops
+        inc = [e for e in f.events() if e['ev'] == 'assign' and e['op'] == '+=' and sym.strip_casts(e['lhs']).get('did') == did]
+        lps = [lp for lp in loops.find_loops(f) if inc and inc[0].block in lp.body]
+        if lps:
+            try:
+                ent = loops.entry_state(f, lps[0], roles={})
+            except sym.PathLimit:
+                ent = []
+            init_ok = bool(ent) and all(isinstance(vals.get(did), dict) and _run_key(vals[did], lv) == k_acc for vals, pre in ent)
+    return did, k_acc, init_ok, need
+
+
 def check_run(run, db):
+    """the search for n contiguous bytes in the intrusive lists: found by what it does (an accumulator reset to the node size on a gap
+    and grown by it on a contiguous node), in a search function of its own or inlined into allocate(n)"""
     n = 0
     for f in db.fns.values():
-        if f.pattern or f.short not in ('list_search_array', 'xor_list_search_array'):
+        if f.pattern:
             continue
+        named = f.short in ('list_search_array', 'xor_list_search_array')
+        in_list = cls_template(f.cls or '') in ('detail::free_memory_list', 'detail::ordered_free_memory_list') and f.short == 'allocate' and len(f.params) == 1
+        if not named and not in_list:
+            continue
+        A = _accumulator(f)
+        if A is None and not named:
+            continue        # allocate(n) that calls a search function
         n += 1
         inst = '%s [%s]' % (f.display, db.config)
-        site = {'function': f.short, 'role': 'run covers the requested bytes'}
-        # accumulator local: `L += P_acc`, `L = P_acc`, compared `L >= P_need`
-        acc = {}
-        for e in f.events():
-            if e['ev'] == 'assign' and sym.strip_casts(e['lhs']).get('k') == 'local':
-                did = sym.strip_casts(e['lhs'])['did']
-                r = sym.strip_casts(e['rhs'])
-                if r.get('k') == 'param':
-                    acc.setdefault(did, {}).setdefault(e['op'], set()).add(r['i'])
-            if e['ev'] == 'decl':
-                for v in e['vars']:
-                    r = sym.strip_casts(v.get('init') or {})
-                    if isinstance(r, dict) and r.get('k') == 'param':
-                        acc.setdefault(v['did'], {}).setdefault('init', set()).add(r['i'])
-        cand = [(did, ops) for did, ops in acc.items() if '+=' in ops and '=' in ops and ops['+='] == ops['='] and len(ops['+=']) == 1]
+        site = {'function': f.short if named else 'list_search_array', 'role': 'run covers the requested bytes'}
         probs = []
-        if len(cand) != 1:
+        if A is None:
             probs.append('no accumulator that grows by the node size on the contiguous branch and is reset to it on a gap')
         else:
-            did, ops = cand[0]
-            p_acc = list(ops['+='])[0]
-            if ops.get('init') != {p_acc}:
+            did, k_acc, init_ok, need = A
+            if not init_ok:
                 probs.append('the accumulator does not start at one node')
-            # comparison L >= P_need guarding the non-null return
-            need = None
-            for b in f.blocks.values():
-                t = b.get('term')
-                if t and isinstance(t.get('cond'), dict):
-                    c = sym.strip_casts(t['cond'])
-                    if c.get('k') == 'bin' and c['op'] in ('>=', '<=', '>', '<'):
-                        l, r = sym.strip_casts(c['l']), sym.strip_casts(c['r'])
-                        pair = None
-                        if l.get('did') == did and r.get('k') == 'param':
-                            pair = (c['op'], r['i'])
-                        elif r.get('did') == did and l.get('k') == 'param':
-                            pair = ({'>=': '<=', '<=': '>=', '>': '<', '<': '>'}[c['op']], l['i'])
-                        if pair:
-                            need = pair
             if need is None:
                 probs.append('the accumulator is never compared with the requested byte count')
             elif need[0] != '>=':
                 probs.append('the run is accepted on `accumulated %s needed`, not on >=' % need[0])
-            elif need[1] == p_acc:
+            elif need[1] == k_acc:
                 probs.append('the accumulator is compared with the node size, not with the requested bytes')
-            else:
+            elif k_acc[0] == 'param' and need[1][0] == 'param':
                 # callers: argument order (bytes, node_size_)
-                p_need = need[1]
                 for g in db.fns.values():
                     for e, t in flow.call_events(g):
                         if t.get('key') == f.key:
                             lv = common.single_assignment_locals(g)      # a hoisted `const auto node_size = node_size_;` is the field
-                            a_need = sym.canon(common.expand_locals(t['args'][p_need], lv), {0: 'n'})
-                            a_acc = sym.canon(common.expand_locals(t['args'][p_acc], lv), {0: 'n'})
+                            a_need = sym.canon(common.expand_locals(t['args'][need[1][1]], lv), {0: 'n'})
+                            a_acc = sym.canon(common.expand_locals(t['args'][k_acc[1]], lv), {0: 'n'})
                             if a_acc != 'this.node_size_' or a_need != '$n':
                                 probs.append('%s calls the search with (bytes=%s, node size=%s)' % (strip_ns(g.name), a_need, a_acc))
+            else:
+                # the loop lives in allocate(n) itself: fed from the list's node size, compared with the requested bytes
+                if k_acc != ('term', 'this.node_size_') or need[1] != ('param', 0):
+                    probs.append('the search accumulates %s and compares with %s, not node_size_ and the requested bytes' % (k_acc[1], need[1][1]))
         if probs:
             run.violation('R-RUN', inst, f.loc, '; '.join(sorted(set(probs))), site=site)
         else:
